@@ -341,6 +341,10 @@ func (c *cctx) eval(e ast.Expr) cval {
 		case Sc:
 			// ghost byte array (SMT array): index directly
 			if bv.T.S.Kind == SArr {
+				if bv.T.S.Idx.Eq(x.ar.mathSort()) && !bv.T.S.Idx.Eq(x.ar.idxSort()) {
+					// sequence ghosts are indexed by mathematical integers
+					i = c.math(c.eval(e.Index), e.Index)
+				}
 				return cval{Sc{Select(bv.T, i)}, ghostElemType(bv.T.S, x)}
 			}
 		}
@@ -615,6 +619,11 @@ func (x *Exec) ghostSort(t string) *Sort {
 		return ArrSort(IntSort, IntSort)
 	case "set":
 		return ArrSort(IntSort, BoolSort)
+	case "chunkarrs":
+		// sequence of byte-array values (trace contracts: chunk k's backing array)
+		return ArrSort(x.ar.mathSort(), ArrSort(x.ar.idxSort(), x.byteSort()))
+	case "chunkints":
+		return ArrSort(x.ar.mathSort(), x.ar.mathSort())
 	}
 	if ii, ok := basicByName(t); ok {
 		return x.ar.sortOfInt(ii)
@@ -645,6 +654,12 @@ func basicByName(n string) (intInfo, bool) {
 }
 
 func (x *Exec) havocGhostAt(st *State, g string, b cbind) {
+	if members, ok := x.eng.cs.GhostGroups[g]; ok {
+		for _, m := range members {
+			x.havocGhostAt(st, m, b)
+		}
+		return
+	}
 	decl := x.eng.ghostDecl(g)
 	if decl == nil {
 		x.fail(token.NoPos, "undeclared ghost field #%s in modifies", g)
@@ -899,6 +914,9 @@ func (c *cctx) evalCall(e *ast.CallExpr) cval {
 			return c.boolVal(True)
 		}
 		i := c.idxOf(c.math(c.eval(arg(1)), arg(1)))
+		if as.T.S.Idx.Eq(x.ar.mathSort()) && !as.T.S.Idx.Eq(x.ar.idxSort()) {
+			i = c.math(c.eval(arg(1)), arg(1))
+		}
 		v := c.eval(arg(2))
 		var vt *Term
 		if as.T.S.Elem.Eq(x.byteSort()) && c.isInt(v) {
